@@ -442,6 +442,12 @@ class Rewriter:
             self.bump('R3', k)
         return text
 
+    # R9: anonymous loop variable gets a name so that loop invariants can refer to the iteration count
+    def r9(self, text):
+        text, k = re.subn(r'\bfor\s+_\s+in\b', 'for axv_i in', text)
+        self.bump('R9', k)
+        return text
+
     # R5: assertions with format args
     def r5(self, text):
         def fix(m):
